@@ -145,6 +145,7 @@ type VC struct {
 	// marks[i].from on were emitted while executing block marks[i].blk of the
 	// function under proof (-1: outside any block)
 	marks  []blkMark
+	topCon *Contract // contract of the function under proof
 	curBlk int
 	anc    map[int]map[int]bool // block → blocks with a forward path to it (itself included)
 }
